@@ -27,7 +27,8 @@ ID = "C31"
 RULE = (
     "Hypothesis draws a function name and its arguments. Polygons: integer convex hulls, star-shaped non-convex "
     "polygons (vertices sorted by exact angle around an interior lattice point), rectilinear 'histogram' polygons, "
-    "both orientations, optional redundant mid-edge vertices; polyhedra: brute-force exact hulls of a lattice "
+    "both orientations, every cyclic shift, redundant collinear vertices (1..3 per edge at multiples of 1/2..1/4, forced on the "
+    "extreme sides of the bounding box and as the first stored vertex in a well-populated class); polyhedra: brute-force exact hulls of a lattice "
     "tetrahedron plus up to 6 lattice points (coplanar triangles merged into polygonal faces) and non-convex "
     "edge-manifold unions of unit cubes (plane partitions, reflected / permuted); query points on the half-integer "
     "lattice of the bounding box +-1; half-space systems from the hull facets and random ones; planar / non-planar "
@@ -65,10 +66,13 @@ _CHEAP = ["is_ccw_polygon", "is_ccw_polyline", "point_in_polygon", "point_in_pol
           "pih_convex", "half_space", "points_are_planar", "points_are_collinear", "hanging_nodes",
           "sort_point_pairs", "sort_point_plane", "sort_points_on_line", "sort_triangle_edges"]
 # pih_voxel / half_space_interior cost ~10 ms, sort_multiple_point_pairs ~25 ms (numba dispatcher rebuilt per call)
-FNS = _CHEAP * 2 + ["pih_voxel", "pih_voxel", "half_space_interior", "half_space_interior", "sort_multiple_point_pairs"]
+FNS = _CHEAP * 2 + ["is_ccw_polygon", "is_ccw_polygon", "pih_voxel", "pih_voxel", "half_space_interior",
+                    "half_space_interior", "sort_multiple_point_pairs"]
 REQUIRED = {f: 0.02 for f in set(FNS)}
 REQUIRED["sort_multiple_point_pairs"] = 0.01
-REQUIRED.update({"poly-convex": 0.03, "poly-star": 0.05, "poly-hist": 0.03, "poly-cw": 0.05, "poly-ccw": 0.05,
+REQUIRED.update({"poly-hanging": 0.05, "poly-collinear-vertex": 0.05, "poly-collinear-on-extreme-side": 0.03,
+                 "poly-first-extreme-vertex-collinear": 0.01, "poly-starts-at-collinear-vertex": 0.01,
+                 "poly-convex": 0.03, "poly-star": 0.05, "poly-hist": 0.03, "poly-cw": 0.05, "poly-ccw": 0.05,
                  "pip-inside": 0.03, "pip-outside": 0.03, "pip-on-edge-line": 0.01, "pih-inside": 0.03,
                  "pih-outside": 0.03, "pih-on-face-plane": 0.005, "collinear-yes": 0.005, "collinear-no": 0.005, "planar-yes": 0.005,
                  "planar-no": 0.005, "chain-open": 0.005, "chain-circular": 0.005})
@@ -221,6 +225,18 @@ def _poly_labels(P):
     if P["hang"]:
         labs.append("poly-hanging")
     n = len(P["v"])
+    v = P["v"]
+    coll = [ep.cross2(v[i - 1], v[i], v[(i + 1) % n]) == 0 for i in range(n)]
+    if any(coll):
+        labs.append("poly-collinear-vertex")
+        xs, ys = [p[0] for p in v], [p[1] for p in v]
+        first_ext = {xs.index(min(xs)), xs.index(max(xs)), ys.index(min(ys)), ys.index(max(ys))}
+        if any(coll[i] and (v[i][0] in (min(xs), max(xs)) or v[i][1] in (min(ys), max(ys))) for i in range(n)):
+            labs.append("poly-collinear-on-extreme-side")
+        if any(coll[i] for i in first_ext):
+            labs.append("poly-first-extreme-vertex-collinear")
+        if coll[0]:
+            labs.append("poly-starts-at-collinear-vertex")
     if any(ep.cross2(P["v"][i - 1], P["v"][i], P["v"][(i + 1) % n]) * ep.area2x(P["v"]) < 0 for i in range(n)):
         labs.append("poly-nonconvex")
     return labs
